@@ -126,7 +126,7 @@ type vc09Recovered struct {
 
 func vc09ReadNode(n *vgcNode) *vc09Recovered {
 	r := &vc09Recovered{Bits: map[vc09FragKey][]uint64{}}
-	for _, f := range vc09AllFragments(n.Server.holder) {
+	for _, f := range vgcAllFragments(n.Server.holder) {
 		if f.index != vc09Index {
 			continue
 		}
